@@ -12,8 +12,46 @@ mod lexprops;
 
 use model::run::Args;
 
+/// A derive call that does not return within 90 s is non-termination of the derive: a C19 violation
+/// (with the source as replay) when C19 is being checked, exit 2 (inconclusive) otherwise.
+fn start_derive_watchdog(args: &Args) {
+    use std::sync::atomic::Ordering;
+    let prop = args.prop.clone();
+    let replay_dir = args.replay_dir.clone();
+    std::thread::spawn(move || {
+        let mut last = (model::prep::DERIVE_CALLS.load(Ordering::Relaxed), std::time::Instant::now());
+        loop {
+            std::thread::sleep(std::time::Duration::from_secs(3));
+            let now = model::prep::DERIVE_CALLS.load(Ordering::Relaxed);
+            if now != last.0 {
+                last = (now, std::time::Instant::now());
+                continue;
+            }
+            if model::prep::DERIVE_IN_FLIGHT.load(Ordering::Relaxed) == 0 {
+                // nothing is being derived: other long work (DFA builds, cargo, CLI runs) is not a derive hang
+                last = (now, std::time::Instant::now());
+                continue;
+            }
+            if now == 0 || last.1.elapsed().as_secs() < 90 {
+                continue;
+            }
+            // the same derive call has been pending for 90 s (cases that do other long work between derives
+            // keep making derive calls, so this is the derive itself)
+            let src = model::prep::DERIVE_CURRENT.lock().ok().and_then(|c| c.clone()).unwrap_or_default();
+            if prop.starts_with("C19") {
+                model::run::report_violation("C19", &replay_dir, &serde_json::json!({"property": "C19", "tier": "G", "source": src, "fragments_ok": false,
+                    "findings": [{"property": "C19", "what": "the derive did not return within 90 s on this input (non-termination)"}]}));
+                std::process::exit(1);
+            }
+            eprintln!("watchdog: a derive call has been pending for 90 s; inconclusive for {prop}\n{src}");
+            std::process::exit(2);
+        }
+    });
+}
+
 fn main() {
     let args = Args::parse();
+    start_derive_watchdog(&args);
     let code = match args.prop.as_str() {
         "C01" | "C02" | "C03" => lexprops::main(&args),
         "C04" | "C12" => c04::main(&args),
